@@ -45,6 +45,7 @@ pub fn all() -> Vec<Regression> {
         Regression { name: "D27-radau-slow-newton-fallthrough", property: "C14", what: "Radau on Van der Pol mu=100, [0,200], rtol=0.1: final error must stay at tolerance scale (was 3.4)", f: d27 },
         Regression { name: "D12-hinit-depends-on-dimension", property: "C13", what: "16 identical copies of a system with the automatic initial step take the same first step as the system itself", f: d12 },
         Regression { name: "D28-first-output-absolute-slack", property: "C03", what: "x0=1, span 1e-9, first_step=span/7, DOP853 rtol 1e-8 on a problem starting at rest: t must be strictly monotone", f: d28 },
+        Regression { name: "D29-brent-sign-product-underflow", property: "C08", what: "g = 1e-170*(t-c) must be located at c", f: d29 },
         Regression { name: "D16-rk4-dense-order", property: "C07", what: "RK4 cubic Hermite dense output must be O(h^4) inside a step", f: d16 },
     ]
 }
@@ -589,6 +590,19 @@ fn d28() -> Result<(), String> {
         if !(w[1] > w[0]) {
             return Err(format!("t not strictly increasing: {:e} then {:e}", w[0], w[1]));
         }
+    }
+    Ok(())
+}
+
+fn d29() -> Result<(), String> {
+    let p = base(Base::Decay(-1.0));
+    let mut c = Cfg::new(Method::RK4, 0.0, 1.0, &p.y0);
+    c.first_step = Some(0.1);
+    c.events = vec![EventSpec::new(EvKind::T(0.7300001)).scale(1e-170)];
+    let r = run(&p, &c);
+    let s = sol_of(&r)?;
+    if s.t_events[0].len() != 1 || (s.t_events[0][0] - 0.7300001).abs() > 2e-11 {
+        return Err(format!("events reported at {:?}, root at 0.7300001", s.t_events[0]));
     }
     Ok(())
 }
